@@ -10,7 +10,7 @@
 (***************************************************************************)
 EXTENDS PgConn, Export
 
-CONSTANTS MaxSends, MaxVer, Names, PNames
+CONSTANTS MaxSends, MaxVer, Names, PNames, CustomCache
 
 VARIABLES hist, ver,
           pfrom,    \* portal name -> statement name it was bound from
@@ -18,8 +18,12 @@ VARIABLES hist, ver,
 
 mcvars == <<vars, hist, ver, pfrom, tainted>>
 
-Cfg0 == [auth |-> "none", tls |-> "nil", params |-> <<>>, version |-> "", mw |-> <<>>,
-         term |-> "none", limit |-> 8192]
+\* CustomCache: the server is configured with its own statement and portal caches
+Cfg0 == IF CustomCache
+        THEN [auth |-> "none", tls |-> "nil", params |-> <<>>, version |-> "", mw |-> <<>>,
+              term |-> "none", limit |-> 8192, cache |-> "custom"]
+        ELSE [auth |-> "none", tls |-> "nil", params |-> <<>>, version |-> "", mw |-> <<>>,
+              term |-> "none", limit |-> 8192]
 
 Done == [op |-> "complete", tag |-> "OK"]
 RetNil == [op |-> "ret", r |-> "nil"]
